@@ -16,7 +16,11 @@
    Re-synchronised with /repo 8fbaa01 (C06 rewrite of _getFinished): only the argument text of the two
    client-side _getFinished calls changed (new keyword expect_new_session_ticket); the Finished
    comparison row (verify_data, alert decrypt_error) and every assignment / session.create row are
-   unchanged and in the same order. *)
+   unchanged and in the same order.
+   Re-synchronised with /repo 79180d8 (0bc7834): the wrapper's three protocol-exception handlers were
+   merged into one (same mapping illegal_parameter / decode_error / decrypt_error, plus _shutdown when
+   the alert cannot be sent): only the failure-action text of the `checker` row changed; map_exn in the
+   model is unchanged. *)
 From Coq Require Import List String.
 Import ListNotations.
 Open Scope string_scope.
@@ -208,7 +212,7 @@ Definition expected_sites : list (string * string * string * string * string * s
    "", "alert:decrypt_error");
   ("tlsconnection.py", "TLSConnection._handshakeWrapperAsync", "check",
    "checker(self)",
-   "checker", "-|except TLSAuthenticationError->reraise|except GeneratorExit->reraise;TLSAlert->reraise;TLSIllegalParameterException->alert:illegal_parameter;TLSDecodeError->alert:decode_error;TLSDecryptionFailed->alert:decrypt_error;any->reraise");
+   "checker", "-|except TLSAuthenticationError->reraise|except GeneratorExit->reraise;TLSAlert->reraise;(TLSIllegalParameterException, TLSDecodeError, ...->alert:descr;any->reraise");
   ("tlsconnection.py", "TLSConnection._pickServerKeyExchangeSig", "compare",
    "hashAndAlgsExt.sigalgs is None",
    "", "continue");
